@@ -34,6 +34,7 @@ var c06Docs = []string{
 	"x[^1] y[^2]\n\n[^1]: one\n[^2]: two\n",
 	"x[^2]\n\n[^2]: only\n",
 	"x[^1] again[^1] and[^1] y[^2] z[^2]\n\n[^1]: one\n[^2]: two\n",
+	"[Foo Bar]: /first\n[foo  bar]: /second\n[FOO BAR]: /third\n[fOO\nbar]: /fourth\n[ẞtraße]: /s1\n[SSTRASSE]: /s2\n\n[foo bar] [Foo Bar][] [x][FOO  BAR] [sstrasse]\n",
 	"\"open 'single\n\nnext \"para\" 'q'\n",
 	"|a|b|c|\n|:-|-:|:-:|\n|1|2|3|\n",
 	"```go\nx\n",
@@ -77,7 +78,7 @@ func c06Ops(ndocs int) []c06Op {
 	}
 	// failed conversions belong to an instance's history too: Convert into a writer that refuses every byte ('F') and
 	// into one that fails after 7 bytes ('G'), for the first documents
-	for d := 0; d < ndocs && d < 7; d++ {
+	for d := 0; d < ndocs && d < 8; d++ {
 		ops = append(ops, c06Op{'F', d}, c06Op{'G', d})
 	}
 	return ops
@@ -361,7 +362,7 @@ func runC06(r *core.Run) {
 			out, _, _ := core.NewConv(cfg).Convert([]byte(d))
 			fresh[i] = append([]byte{}, out...)
 		}
-		s := r.Sub("histories/"+cn, fmt.Sprintf("every sequence of ≤%d operations from {Convert(d), Parse(d) for %d leak-prone documents, Render(tree_i) for i<3, Convert(d) into a writer failing at byte 0 or 7 for d<7} on one new Markdown instance under %s; every result compared with the same operation on a fresh instance; state = history (a correct implementation has a single abstract state); distinct = well-formed histories", depth, len(c06Docs), cn))
+		s := r.Sub("histories/"+cn, fmt.Sprintf("every sequence of ≤%d operations from {Convert(d), Parse(d) for %d leak-prone documents, Render(tree_i) for i<3, Convert(d) into a writer failing at byte 0 or 7 for d<8} on one new Markdown instance under %s; every result compared with the same operation on a fresh instance; state = history (a correct implementation has a single abstract state); distinct = well-formed histories", depth, len(c06Docs), cn))
 		s.Bound = fmt.Sprintf("depth=%d ops=%d", depth, len(ops))
 		// shard on the first operation
 		var total int64 = 0
